@@ -179,6 +179,8 @@ class T1Font(object):
         for key, value in sortedItems:
             if key == "Private":
                 pr = eexec_dict["Private"]
+                # Subrs may come before lenIV in the dictionary
+                lenIV = pr.get("lenIV", lenIV)
                 # follow t1write.c:writePrivateDict
                 size = 3  # for RD, ND, NP
                 for subkey in Private_dictionary_keys:
